@@ -231,7 +231,11 @@ func propC08(c *Ctx) {
 	if pf := getPoolFacts(c, rz, vf); pf != nil {
 		rulePoolZero(c, rz, vf, pf)
 		rulePoolLock(c, rl, pf)
+		rps := c.Rule("pool-symmetric", "child VMs are registered on and unregistered from the same pool (the root VM's): a stale registration lets another VM's Abort reach an unrelated run", 1)
+		rulePoolSymmetric(c, rps, pf)
 	}
+	rbo := c.Rule("child-bc-own", "every Bytecode header stored into a VM is that VM's own storage (fresh, the caller's program, or its previous header), never a package-level or otherwise shared value", 2)
+	ruleChildBytecodeOwn(c, rbo, vf)
 }
 
 func rootGlobal(addr ssa.Value) *ssa.Global {
@@ -308,6 +312,9 @@ func propC12(c *Ctx) {
 			c.Check(rs, "child VM.modulesCache = root", l.Pos(st.Pos()), pf.rootFieldLoad(vf, st.Val, "modulesCache"), "stored value is the root VM's modulesCache", "the child gets a copy (or another slice) instead of the root's module cache: the module body runs again on the next import and its state is lost")
 		}
 	}
+
+	rfa := c.Rule("fixup-always", "every decoding entry point of package encoder that receives the module map reaches the module fix-up before it returns success: unknown modules are refused at load time", 2)
+	ruleFixupAlways(c, rfa)
 
 	// cache-grow: Run only appends to an existing module cache
 	rg := c.Rule("cache-grow", "Run never replaces a module cache that already holds loaded modules: every store to VM.modulesCache in Run appends to the current value", 1)
@@ -645,6 +652,11 @@ func propC10(c *Ctx) {
 
 	rg := c.Rule("cache-grow", "VM.Run only appends to an existing module cache (the Eval session installs the modules earlier fragments loaded)", 1)
 	ruleCacheGrow(c, rg, vf)
+
+	rsa := c.Rule("save-all-paths", "after the VM run every path of Eval.Run to a return stores r.Locals and r.ModulesCache (also for a failing fragment)", 2)
+	ruleEvalSaveAllPaths(c, rsa, run, vmRunCall)
+	rle := c.Rule("locals-elements", "no code of the package overwrites an element of Eval.Locals: the VM's slots (cells of captured variables included) come back verbatim", 1)
+	ruleEvalLocalsElements(c, rle)
 
 	rlv := c.Rule("locals-verbatim", "GetLocals hands the stack slots to the next fragment verbatim, pointer boxes of captured variables included", 1)
 	ruleLocalsVerbatim(c, rlv, vf)
